@@ -634,7 +634,42 @@ impl<'a> Gen<'a> {
   /// A well-formed request with one aggregation whose numeric / time parameters sit at the edges
   /// (tiny, zero-rounding, huge intervals; bounds near and far apart): fully random requests
   /// mostly die in validation, these reach the bucket-filling loops.
+  /// A well-formed bucket aggregation of every kind with ONE questionable child (a top_hits
+  /// ordered by an unknown / text field or with extreme paging, a metric on the wrong kind of
+  /// field, a pipeline with a dangling path): whatever is checked when the request is planned has
+  /// to be checked below every kind of parent.
+  fn focused_nested(&mut self) -> Value {
+    let q = if self.rng.chance(1, 2) { json!({"type":"match_all"}) } else { json!(self.word()) };
+    let mut parent = match self.rng.below(9) {
+      0 => json!({"type":"terms","field":"tag"}),
+      1 => json!({"type":"significant_terms","field":"tag"}),
+      2 => json!({"type":"rare_terms","field":"tag","max_doc_count":2}),
+      3 => json!({"type":"range","field":"n","keyed":false,"ranges":[{"to":5.0},{"from":5.0}]}),
+      4 => json!({"type":"date_range","field":"ts","keyed":false,"ranges":[{"to":"2020-06-01T00:00:00Z"},{"from":"0"}]}),
+      5 => json!({"type":"histogram","field":"n","interval":5.0}),
+      6 => json!({"type":"date_histogram","field":"ts","calendar_interval":"day"}),
+      7 => json!({"type":"filter","filter":{"KeywordEq":{"field":"tag","value":"x"}}}),
+      _ => json!({"type":"composite","size":5,"sources":[{"type":"terms","name":"t","field":"tag"}]}),
+    };
+    let child = match self.rng.below(8) {
+      0 => json!({"type":"top_hits","size":2,"sort":[{"field":"nope"}]}),
+      1 => json!({"type":"top_hits","size":2,"sort":[{"field":"body","order":"asc"}]}),
+      2 => json!({"type":"top_hits","size": self.usz(),"from": self.usz()}),
+      3 => json!({"type":"stats","field":"body"}),
+      4 => json!({"type":"terms","field":"nope"}),
+      5 => json!({"type":"bucket_script","buckets_path":{"a":"x.y"},"script":"a + 1"}),
+      6 => json!({"type":"derivative","buckets_path":"nope"}),
+      _ => json!({"type":"percentiles","field":"tag","percents":[50.0]}),
+    };
+    parent["aggs"] = json!({"c": child});
+    self.bump("focused_nested_questionable_child");
+    json!({"query": q, "limit": 1 + self.rng.below(3), "return_stored": false, "aggs": {"p": parent}})
+  }
+
   fn focused(&mut self) -> Value {
+    if self.rng.chance(1, 2) {
+      return self.focused_nested();
+    }
     let q = if self.rng.chance(1, 2) { json!({"type":"match_all"}) } else { json!(self.word()) };
     // bounds are RFC 3339 timestamps or epoch milliseconds as strings; a plain date is refused
     let dates = ["2020-01-01T00:00:00Z", "2020-01-02T00:00:00Z", "2020-01-01T00:00:01Z", "2020-12-31T00:00:00Z",
@@ -676,11 +711,11 @@ impl<'a> Gen<'a> {
       }
     };
     self.bump("focused_edge_aggregation");
-    json!({"query": q, "limit": 1 + self.rng.below(3), "aggs": {"f": agg}})
+    json!({"query": q, "limit": 1 + self.rng.below(3), "return_stored": false, "aggs": {"f": agg}})
   }
 
   fn request(&mut self) -> Value {
-    if self.rng.chance(1, 12) {
+    if self.rng.chance(1, 8) {
       return self.focused();
     }
     let depth = match self.rng.below(20) {
